@@ -20,10 +20,16 @@ fn fire_case(sink: &mut CaseSink, interval: u64, elapsed: u64) {
     sink.push_line(format!("Fire {} {} {}", interval, elapsed, coqfmt::b(expired)), true, format!("fire {} {}", interval, elapsed));
 }
 
+thread_local! {
+    /// connection_timeout option for the connections this thread opens (it is a limit on the
+    /// handshake only: once the connection is up it must play no part)
+    static CONN_TIMEOUT_MS: std::cell::Cell<Option<u64>> = std::cell::Cell::new(None);
+}
+
 fn open_with(server_hb: u16, client_hb: u16, auto: bool) -> Option<(Connection, Peer, Broker)> {
     let (stream, peer) = mock_pair();
     let broker = Broker::start(peer.clone(), BrokerCfg { tune: (2047, 131072, server_hb), auto_reply: auto, ..Default::default() });
-    let opts = ConnectionOptions::<Auth>::default().heartbeat(client_hb);
+    let opts = ConnectionOptions::<Auth>::default().heartbeat(client_hb).connection_timeout(CONN_TIMEOUT_MS.with(|c| c.get()).map(Duration::from_millis));
     let conn = with_deadline(move || Connection::insecure_open_stream(stream, opts, ConnectionTuning::default()), Duration::from_secs(5))?.ok()?;
     Some((conn, peer, broker))
 }
@@ -229,6 +235,18 @@ pub fn run(a: &Args) {
     }));
     handles.push(std::thread::spawn(|| {
         zero(2600).map(|(h, f)| ("zero".to_string(), format!("Zero 2600 {} {}", h, f)))
+    }));
+    // the same two with a connection_timeout of 300 ms configured: it limits the handshake, an
+    // established connection that is quiet for longer than that is not affected
+    handles.push(std::thread::spawn(|| {
+        CONN_TIMEOUT_MS.with(|c| c.set(Some(300)));
+        zero(2600).map(|(h, f)| ("zero-with-connection-timeout".to_string(), format!("Zero 2600 {} {}", h, f)))
+    }));
+    handles.push(std::thread::spawn(|| {
+        CONN_TIMEOUT_MS.with(|c| c.set(Some(300)));
+        let mut last = None;
+        for _ in 0..3 { last = live(1, 900, 4600, false); if last == Some(false) { break; } }
+        last.map(|f| ("live-with-connection-timeout".to_string(), format!("Live 1 900 4600 {}", coqfmt::b(f))))
     }));
     for p in passes {
         if let Ok((h, queued, _asked, (missed, ok, outlen, away))) = p.join() {
